@@ -43,11 +43,11 @@ func zzSameTree(a, b map[string]interface{}) bool {
 	return ok
 }
 
-// zzGenTree builds a nested map of depth <= d with 1..2 dot-free symbolic
+// zzGenTree builds a nested map of depth <= d with 1..NK dot-free symbolic
 // keys per level, no empty sub-maps, symbolic string leaves.
 func zzGenTree(d int) map[string]interface{} {
 	m := map[string]interface{}{}
-	n := 1 + nd.Choose("nkeys", 2)
+	n := 1 + nd.Choose("nkeys", nd.Param("NK", 2))
 	var keys []string
 	for i := 0; i < n; i++ {
 		k := zzKey("key")
